@@ -176,11 +176,15 @@ func (w *Flushable) Drop() {
 
 // NotFlushedPairs returns num of not flushed keys, including deleted keys.
 func (w *Flushable) NotFlushedPairs() int {
+	w.lock.RLock()
+	defer w.lock.RUnlock()
 	return w.modified.Size()
 }
 
 // NotFlushedSizeEst returns estimation of not flushed data, including deleted keys.
 func (w *Flushable) NotFlushedSizeEst() int {
+	w.lock.RLock()
+	defer w.lock.RUnlock()
 	return *w.sizeEstimation
 }
 
